@@ -54,6 +54,11 @@ package tengo
 //@   pure
 //@ func extern time.Unix
 //@   pure
+//@ func extern sync/atomic.LoadInt64
+//@   assigns nothing
+//@ func extern sync/atomic.StoreInt64
+//@   assigns *a0
+//@   ensures *a0 == a1
 //@ func extern math.IsNaN
 //@   pure
 //@   ensures result == spec.isnan(a0)
@@ -213,8 +218,15 @@ package tengo
 // ---------------------------------------------------------------------------
 
 //@ func (*VM).run
-//@   props C06
+//@   props C06 C02
 //@   mode panics-allowed bounds
 //@   private v
 //@   assigns *
-//@   loop 0 step budget{C06}: v.allocs == it0(v.allocs) || (v.allocs == it0(v.allocs) - 1 && v.allocs != 0)
+//@   loop 0 let op = v.curInsts[v.ip+1]
+//@   loop 0 step budget{C06}: v.allocs == it0(v.allocs) || (v.allocs == it0(v.allocs) - 1 && (continued ==> v.allocs != 0))
+//@   loop 0 step tracked{C06}: continued && spec.alloc_always(op) ==> v.allocs == it0(v.allocs) - 1
+//@   loop 0 step untracked{C06}: spec.alloc_never(op) ==> v.allocs == it0(v.allocs)
+//@   loop 0 step limit{C06}: exited && v.allocs == 0 && it0(v.allocs) != 0 ==> v.err == ErrObjectAllocLimit
+//@   loop 0 step decode{C02}: continued && spec.straight(op) ==> v.ip == it0(v.ip) + 1 + int(spec.sumw(op))
+//@   loop 0 step delta{C02}: continued && spec.delta_fixed(op) ==> v.sp == it0(v.sp) + int(spec.delta(op))
+//@   loop 0 step opcode{C02}: continued ==> spec.validop(op)
